@@ -3,5 +3,5 @@
 out=$1; prop=$2; tier=${3:-quick}
 d=/var/tmp/seedq-$$; rm -rf $d; mkdir -p $d; cp -r /repo/src $d/src
 (cd $d && git init -q . >/dev/null 2>&1; patch -p1 -s < $out/patch.diff) || { echo "patch failed"; rm -rf $d; exit 2; }
-cd /verif && GEMDAT_SRC=$d/src ./check.py $prop --tier $tier 2>&1 | grep -e "^OK" -e "^VIOLATION" -e "first viol" -e MACH -e KNOWN | cut -c1-400
+cd ${VROOT:-/verif} && GEMDAT_SRC=$d/src ./check.py $prop --tier $tier 2>&1 | grep -e "^OK" -e "^VIOLATION" -e "first viol" -e MACH -e KNOWN | cut -c1-400
 rm -rf $d
